@@ -5,6 +5,9 @@ cd /verif
 WT=$(mktemp -d /tmp/sweepwt.XXXXXX); rmdir $WT
 git -C /repo worktree add -q --detach $WT HEAD || exit 9
 trap 'git -C /repo worktree remove --force $WT 2>/dev/null; git -C /repo worktree prune' EXIT
+# the compiled extensions are untracked build products: copy them so that the worktree's atomman imports (the checks themselves
+# analyse the re-translated .pyx and replay on their own out-of-tree build)
+(cd /repo && for f in $(find atomman -name '*.so'); do cp $f $WT/$f; done)
 OUT=seeded/SWEEP${1:+_$1}.txt; TMP=$(mktemp)
 echo "# sweep of seeded changes against /repo $(git -C /repo rev-parse --short HEAD), /verif $(git rev-parse --short HEAD), $(date -u +%F)" > $TMP
 for d in seeded/${1:-}*/; do
@@ -15,6 +18,6 @@ for d in seeded/${1:-}*/; do
   git -C $WT apply $PWD/$d/patch.diff
   out=$(VERIF_REPO=$WT PYTHONPATH=$WT ./check $id --tier quick --no-evidence 2>&1); rc=$?
   nv=$(echo "$out" | grep -c '^VIOLATION')
-  echo "$name: exit=$rc violations=$nv $( [ $rc = 1 ] && echo DETECTED || echo MISSED ) | $(echo "$out" | grep 'tier=' | cut -c1-170)" >> $TMP
+  echo "$name: exit=$rc violations=$nv $( [ $rc = 1 ] && [ $nv -gt 0 ] && echo DETECTED || ( [ $rc = 0 ] && echo MISSED || echo CHECK-ERROR ) ) | $(echo "$out" | grep 'tier=' | cut -c1-170)" >> $TMP
 done
 mv $TMP $OUT; tail -n +1 $OUT | cut -c1-120
